@@ -1004,7 +1004,45 @@ def r13_template_roles_and_relation(ctx):
     ctx.floor('C17.R13', 'recursive calls of the template matcher with both roles determined', n_rec, 6)
 
 
+CHILD_BEARING = {'Path', 'TypeAlias', 'Reference', 'Tuple', 'Slice', 'Array', 'RawPointer', 'FunctionPointer'}
+
+
+def r14_recursive_walkers_are_total(ctx):
+    ctx.rule('C17.R14', 'P5 exhaustiveness of the structural recursion: every function of rustdoc_ir that walks a `Type` recursively (it takes the type as '
+             '`self`, matches on it and calls itself on nested types — predicates, collectors, rewriters, the canonicaliser) names EVERY variant '
+             'that has nested types (Path, TypeAlias, Reference, Tuple, Slice, Array, RawPointer, FunctionPointer) in its match: none of them is '
+             'left to a catch-all arm. A predicate "nothing to rename here" whose `_ => false` swallows Tuple makes `Holder<(Cow<\'a, str>, u32)>` '
+             'its own canonical form, so the `\'a` and `\'_` spellings are different keys, a generic request-scoped constructor is specialised '
+             'twice and runs twice per request.')
+    n = 0
+    for b in ctx.fb.bodies(CR):
+        if b.is_promoted or b.nid != b.nroot or b.raw['argc'] < 1:
+            continue
+        if not re.match(r'^&(mut )?rustdoc_ir::Type$', strip_generics(b.locals[1]).replace("'_ ", '').replace("'a ", '')) and 'rustdoc_ir::Type' not in b.locals[1]:
+            continue
+        if not b.locals[1].lstrip('&').replace('mut ', '').startswith('rustdoc_ir::Type'):
+            continue
+        bodies = [x for x in ctx.fb.bodies_of_item(CR, b.nroot) if not x.is_promoted]
+        if not any(strip_generics(callee(t) or '') == b.nroot for x in bodies for _, t in x.calls()):
+            continue
+        sws = [(sb, w) for sb, w in enum_switches(b, 'rustdoc_ir::Type') if w['src']['l'] == 1 and w['src'].get('p') == ['*']]
+        if not sws:
+            continue
+        # the primary match: the switch on `*self` that dominates the others
+        prim = [x for x in sws if all(b.dominates(x[0], y[0]) for y in sws)]
+        if not prim:
+            continue
+        sb, w = prim[0]
+        n += 1
+        explicit = {nm for nm, _ in w['ts']}
+        left = sorted(CHILD_BEARING - explicit)
+        ctx.ob('C17.R14', 'total|%s' % b.nid.replace(T, ''), not left, b.loc(sb),
+               '%s matches on its type and names every variant with nested types%s' % (b.nid.split('::')[-1], '' if not left else ' — NO: %s fall into the catch-all arm' % left))
+    ctx.floor('C17.R14', 'recursive single-operand walkers over Type', n, 8)
+
+
 def check(ctx):
+    r14_recursive_walkers_are_total(ctx)
     r13_template_roles_and_relation(ctx)
     r12_both_operands_are_keys(ctx)
     r4_bindings_compared_by_equality(ctx)
